@@ -173,6 +173,8 @@ def workspace(case):
     """Temp directory with the config files of the case; cwd is switched into it."""
     d = tempfile.mkdtemp(prefix='tcverif-ws-')
     old = os.getcwd()
+    from .values import _module
+    _module()      # the parameter-object classes that configuration documents refer to
     mod = make_module(case['classes'])
     try:
         os.chdir(d)
